@@ -592,9 +592,24 @@ def check_decode(case):
     if e5.decode_all(data) != gi.to_ref(clean):
         raise HarnessError("decode case: reference decoder disagrees with the generated tree")
     via = case.get("via", "Item")
+    if case.get("poison"):
+        # the decoder has just refused a series of damaged encodings (truncated copies of this one): what it does with the
+        # next VALID encoding must not depend on that history
+        from secsgem.secs.item import Item
+
+        for i in range(case["poison"]):
+            cut = 1 + (i * 7) % max(1, len(data) - 1)
+            try:
+                Item.decode(data[:cut])
+            except Exception:  # noqa: BLE001 - damaged input: any outcome but a hang is fine
+                pass
     f = check_decoded(data, clean, case, via, raw["f"])
     if f is None or f.bucket == KNOWN_NAN:
         return f
+    if case.get("poison"):
+        fresh = check_decode({k: v for k, v in case.items() if k != "poison"})
+        if fresh is None or fresh.bucket != f.bucket:
+            return Failure("decode-depends-on-earlier-refused-input:" + f.bucket.split(":")[0], case, f.observed, f.expected)
     # root-cause localisation: a member that fails on its own; else the number of length bytes of this node
     if raw["f"] == "L":
         for s in raw["v"]:
@@ -1119,13 +1134,16 @@ def run_task(name, kw, ctx):
     elif name == "decode":
         max_chain = 10 if ctx.tier == "quick" else 20
         strat = st.builds(
-            lambda t, via: {"kind": "decode", "item": t, "via": via},
+            lambda t, via, poison: dict({"kind": "decode", "item": t, "via": via}, **({"poison": poison} if poison and t["f"] == "L" else {})),
             _weighted((4, raw_tree(0)), (2, raw_tree(1)), (2, raw_tree(2)), (2, raw_tree(3)), (1, raw_chain(max_chain))),
             st.sampled_from(["Item", "Item", "class", "packet"]),
+            st.sampled_from([0] * 12 + [5, 40, 400]),
         )
 
         def body(case):
             classes, nt = decode_classes(case["item"], case["via"])
+            if case.get("poison"):
+                classes = classes + ["decode-after-refused-damaged-inputs"]
             ctx.case(case, nt, classes)
             return check_decode(case)
 
